@@ -25,7 +25,7 @@ step_refines inv_reachable abs_run length_eq_card length_reachable rawget_spec g
 next_visits_each_key_once rehash_has_room capacity_pow2_init capacity_pow2_step merge_eq_puts
 arr_count_le_capacity buf_count_le_capacity no_overflow abs_new abs_push abs_cfun_push abs_pop abs_setcount abs_insert abs_remove_seq
 abs_slice abs_fill abs_concat abs_put_seq abs_putindex abs_trim buf_extra_guard abs_buf_push abs_buf_setcount abs_buf_popn abs_buf_fill
-abs_buf_blit abs_buf_blit_self
+abs_buf_blit abs_buf_blit_self astep_abs arr_inv_reachable
 no_oob_in no_oob_get no_oob_halfrange no_oob_slice aremove_no_ub aremove_overflow_ub putindex_fills_gap putindex_gap_uninit
 """.split()
 ENV = dict(os.environ, ASAN_OPTIONS="detect_leaks=0:abort_on_error=0:allocator_may_return_null=1", UBSAN_OPTIONS="print_stacktrace=1")
